@@ -13,7 +13,7 @@ from pv.ref import interp
 from pv.ref import lex as rlex
 
 ID = 'C01'
-TECHNIQUE = 'round-trip oracle parse(format(t, indent, compact)) == t over all 14 option pairs per Hypothesis-generated tree, token-stream equality of all renderings under the reference scanner, fixed-point oracle format(parse(f)) == f on generated and bounded-exhaustive accepted inputs'
+TECHNIQUE = 'round-trip oracle parse(format(t, indent, compact)) == t over all 16 option pairs per Hypothesis-generated tree, token-stream equality of all renderings under the reference scanner, fixed-point oracle format(parse(f)) == f on generated and bounded-exhaustive accepted inputs'
 RULE = ('cases: (a) assembled trees (any shape: duplicate variables, missing concept/target, nested and top-level empty nodes, '
         'anonymous role, Unicode symbols, strings with ( ) / : ~ # and escapes, alignments incl. ~01, multi-key metadata), each '
         'written under ALL 14 (indent, compact) pairs, indent in {None,-1,0,1,2,3,7}; (b) texts assembled token by token from '
@@ -21,7 +21,7 @@ RULE = ('cases: (a) assembled trees (any shape: duplicate variables, missing con
         'metadata comments, parsed by penman, for the fixed-point clause (also per graph via iterparse); (c) every string of '
         'length <= L over ( ) / : ~ " \\ # blank LF a 1 that penman accepts. Non-trivial: >= 2 nodes or a string with a '
         'delimiter/escape, an alignment, a missing concept/target, or metadata. Distinct by case content.')
-ASSUMPTIONS = ['metadata values are in the image of the comment scanner (no "::", LF/CR, no leading/trailing whitespace)',
+ASSUMPTIONS = ['metadata values are in the image of the comment scanner (no "::", LF/CR, no trailing whitespace; leading blanks after the separating one belong to the value)',
                'symbols do not start with "#" (that is a comment by the lexical grammar)',
                'token streams are compared with the reference scanner pv/ref/lex.py (type and text)']
 
@@ -145,6 +145,7 @@ def classes(case):
         if case.get('meta'):
             out.append('metadata')
             if len(case['meta']) > 1: out.append('metadata:multi-key')
+            if any(v[:1].isspace() for v in case['meta'].values()): out.append('metadata:leading-blank-value')
         return out
     out = ['text', 'accepted' if _accepts(case) else 'rejected']
     if case.get('multi'): out.append('multi-graph')
